@@ -110,6 +110,11 @@ class StmtMixin:
                 s1.ghost['__yields__'] = s1.ghost.get('__yields__', 0) + 1
                 yield s1, NORMAL
             return
+        if isinstance(node, ast.Expr) and isinstance(node.value, ast.YieldFrom):
+            # `yield from X`: X is evaluated (its call obligations apply); the delegated items are not inspected
+            for s1, v in self.ev(node.value.value, st):
+                yield s1, (self.raise_out(v) if isinstance(v, Exc) else NORMAL)
+            return
         if isinstance(node, ast.Expr):
             if isinstance(node.value, ast.Constant):
                 yield st, NORMAL
